@@ -172,21 +172,23 @@ CLAIMED = {
    technique="Lean 4 proof of the decision logic over facts regenerated from source; subprocess validation of the runtime part",
    design="5/C17"),
  "C12": dict(
-   text="Lean theorems over a message-level transition system of the non-blocking protocol for ARBITRARY rank count R, sync frequency, target, slice lengths and every interleaving: some action is "
-        "enabled in every non-final reachable state (no_deadlock), when all ranks have returned no age-update or exit message is left and every helper consumed exactly one exit message "
-        "(clean_return), hence calls chain (next_call), at return R*target <= sum of island ages (ages_nonblocking), migration partners are symmetric (par_partner_symmetric). "
+   text="Lean theorems over a message-level transition system of the non-blocking protocol (rank 0: collect every helper's first age message, loop while the integer sum of known ages is below "
+        "the goal, exit notifications, barrier, final drain; helpers: send age, loop until notified, barrier) for ARBITRARY rank count R, sync frequency, requested generations n, entry ages, slice "
+        "lengths and every interleaving, with NO precondition on the call: some action is enabled in every non-final reachable state (no_deadlock), when all ranks have returned no age-update or exit "
+        "message is left (clean_return), at return the sum of island ages has grown by at least R*n, i.e. the mean island age advanced by at least the requested generations (ages_advance, "
+        "goal_reached), consecutive calls compose (two_calls), migration partners are symmetric (par_partner_symmetric). "
         "Tie: TRACE VALIDATION -- the real ParallelArchipelago runs on a deterministic thread-based stand-in for mpi4py under random/adversarial/exhaustive schedules and every logged "
-        "communication event is replayed through the model's step function; oracle on the real runs (deadlock detector, mailboxes, ages, cross-rank agreement, NaN-aware best, migration "
-        "conservation). LIVENESS (Props/C12Live.lean): for every run, rank 0's loop iterations are bounded by R*target (rank0_evolves_bounded_call), its protocol operations by "
-        "Phi(s0) + 2 * (helper age sends) (rank0_steps_bounded: the only way not to return is helpers out-running the drain loop), a notified helper needs at most 5 operations to reach the "
-        "barrier; every weakly fair execution that satisfies a speed bound (helper sends at most q per p rank-0 operations while rank 0 drains, 2q < p) reaches a final state with clean "
-        "mailboxes and the age bound (terminates_fair, terminates_fair_call); without the speed bound there is a fair execution that never returns (livelock_exists, "
-        "termination_needs_speed_assumption).",
+        "communication event is replayed through the model's step function; oracle on the real runs (deadlock detector, mailboxes, per-call age advance, cross-rank agreement, NaN-aware best, migration "
+        "conservation). LIVENESS (Props/C12Live.lean): for every run, rank 0's loop iterations are bounded by R*n (rank0_evolves_bounded_call), its protocol operations by "
+        "Phi(s0) + 2 * (helper age sends) (rank0_steps_bounded: the only way not to return is helpers out-running the drain loop), fairness alone ends each collecting receive "
+        "(collecting_terminates), a notified helper needs at most 5 operations to reach the barrier; every weakly fair execution that satisfies a speed bound (helper sends at most q per p rank-0 "
+        "operations while rank 0 drains, 2q < p) reaches a final state with clean mailboxes and the age advance (terminates_fair, terminates_fair_call); without the speed bound there is a fair "
+        "execution that never returns (livelock_exists, termination_needs_speed_assumption).",
    note=COMMON_NOTE + "mpi4py is not installed: the MPI runtime is my stand-in (buffered, non-overtaking, instantly visible messages, collectives as rank-ordered folds). That the "
-        "harness's schedulers satisfy the speed bound is argued informally (round robin with slices of at least c points: p = c + 2, q = R - 1). Known finding F10 (per-call mean age on later "
-        "calls) in known_findings.json; F16 repaired. Blocking mode is oracle-checked (each island +n).",
+        "harness's schedulers satisfy the speed bound is argued informally (round robin with slices of at least c points: p = c + 2, q = R - 1). F10 (per-call mean age on later "
+        "calls) and F16 are repaired in /repo and listed as fixed in known_findings.json. Blocking mode is oracle-checked (each island +n).",
    technique="Lean 4 proof (inductive invariant for all R and all interleavings; potential functions and a variant argument over infinite fair executions for liveness) + trace validation of the implementation on an MPI stand-in",
-   design="5/C12"),
+   design="5/C12, 12.2"),
  "C04": dict(
    text="Lean theorems over an executable port of AGraphGenerator / the five AGraphMutation kinds / AGraphCrossover as pure functions of (configuration, parent, draws), for ALL draw lists: every "
         "ok result is a well-formed stack of the configured size using only enabled operators and existing variables (gen_wf, command_wf, node_wf, param_wf, prune_wf, fork_wf, crossover_wf, "
